@@ -219,6 +219,9 @@ class Direction(Sub):
             req(count == iv.years + (1 if iv.months > 6 else 0), "years: documented rounding is +1 when more than 6 months remain", got=s, components=dict(comps))
         if unit == "week" and largest[0] == "week":
             req(count == iv.weeks + (1 if iv.remaining_days > 3 else 0), "weeks: documented rounding is +1 when more than 3 days remain", got=s, components=dict(comps))
+        if unit == "day" and largest[0] == "day" and iv.hours == 23:
+            # pinned by tests/datetime/test_diff.py::test_diff_for_humans_accuracy (5 days 23 hours across a DST change -> "6 days")
+            req(count == iv.remaining_days + 1, "days: 23 remaining hours are documented to round up to the next day", got=s, components=dict(comps))
         if unit in ("hour", "minute", "second") and largest[0] == unit:
             req(count == max(largest[1], 1), "hours/minutes/seconds are documented to truncate", got=s, components=dict(comps))
         return rounded or T.transition_between(u1, u2, z), ("rounded-up" if rounded else "truncated") + ":" + unit
